@@ -170,7 +170,17 @@ def _check_reserved(ctx, kind, p, rm, case, origin):
             ok2, got = attempt(read_back, kind, v)
             if not ok2 or got != p:
                 ctx.fail("msg.getters", "parameters_differ", f"{kind}/{origin}/" + (C.diff_keys(got, p) if ok2 else exc_sig(got)), case, observed=got if ok2 else repr(got), expected=p)
-            elif kind in ("originating_id", "put_request", "put_response", "listing_request", "listing_options"):
+                continue
+            # the pathlib conveniences say what the string accessors say
+            if kind in ("listing_request", "listing_response", "put_request"):
+                from pathlib import Path
+                pv = v[1] if kind == "listing_response" and isinstance(v, tuple) else v
+                pairs = (("dir_path_as_path", "dir_path_as_str"), ("dir_file_name_as_path", "dir_file_name_as_str")) if kind != "put_request" else \
+                        (("source_file_as_path", "source_file_as_str"), ("dest_file_as_path", "dest_file_as_str"))
+                for a_path, a_str in pairs:
+                    ok4, e4 = attempt(lambda: (getattr(pv, a_path), getattr(pv, a_str)))
+                    ctx.check("msg.getters", ok4 and e4[0] == Path(e4[1]), "path_accessor_differs_from_string_accessor", f"{kind}/{a_path}", case, observed=repr(e4))
+            if kind in ("originating_id", "put_request", "put_response", "listing_request", "listing_options"):
                 # the parameter objects themselves compare equal to the ones the message was built from
                 orig = _orig_params(kind, p)
                 ok3, e = attempt(lambda: (v == orig) and (orig == v))
@@ -312,6 +322,29 @@ def rand_msg(r, kind):
 _LAST_ORIG = None
 
 
+def k_paths(ctx, path, file):
+    """Directory parameters built from pathlib paths: the names are the string forms of the paths."""
+    from pathlib import Path
+    from spacepackets.cfdp import tlv as T
+    X = C.lib()
+    case = {"k": "paths", "path": path, "file": file}
+    ctx.case("paths", (path, file), sample=case)
+    ok, dp = attempt(T.DirectoryParams.from_paths, Path(path), Path(file))
+    sp_, sf_ = str(Path(path)), str(Path(file))
+    if not ctx.check("msg.paths", ok, "from_paths_raised", exc_sig(dp) if not ok else "", case, error=repr(dp)):
+        return
+    ctx.check("msg.paths", bytes(dp.dir_path.value) == sp_.encode() and bytes(dp.dir_file_name.value) == sf_.encode() and dp == T.DirectoryParams.from_strs(sp_, sf_)
+              and dp.dir_path_as_path == Path(path) and dp.dir_file_name_as_path == Path(file), "from_paths_differs_from_string_form", "", case,
+              observed=[bytes(dp.dir_path.value), bytes(dp.dir_file_name.value)])
+    ok, lv = attempt(X.CfdpLv.from_path, Path(path))
+    ctx.check("msg.paths", ok and bytes(lv.value) == sp_.encode() and bytes(lv.pack()) == R.lv(sp_.encode()), "lv_from_path", "", case)
+    ok, raw = attempt(lambda: bytes(T.DirectoryListingRequest(dp).pack()))
+    ctx.check("msg.paths", ok and raw == R.reserved_message(0x10, R.lv(sp_.encode()) + R.lv(sf_.encode())), "listing_request_from_paths", "", case, observed=raw if ok else repr(raw))
+
+
+KINDS["paths"] = k_paths
+
+
 def selftest(ctx):
     assert R.reserved_message(0x09, b"").hex() == "020563666470" + "09"
     assert R.is_reserved(b"cfdp\x00") and not R.is_reserved(b"cfdp") and not R.is_reserved(b"cfdq\x00") and not R.is_reserved(b"\xff\xfe\x00\x01\x02")
@@ -372,6 +405,11 @@ def run(ctx):
     for w, v in ((4, 0x63666470), (8, 0x6366647063666470), (8, 0x0063666470000000), (2, 0x6366), (4, 0x66647000)):
         k_msg(ctx, "originating_id", {"src": [w, v], "seq": [w, v]})
         k_msg(ctx, "put_request", {"dest_id": [w, v], "src": "a", "dst": "b"})
+    from spacepackets.cfdp.tlv.tlv import create_cfdp_proxy_and_dir_op_message_marker
+    ctx.check("msg.paths", create_cfdp_proxy_and_dir_op_message_marker() == b"cfdp", "marker_helper", "", {"k": "marker"})
+    for pth in ("/tmp/dir", "rel/dir", ".", "/", "a b/c", "dir/子", "x" * 120, "/home/cfdp/in"):
+        for fl in ("listing.txt", "out/list.bin", "é.txt", "f" * 100):
+            k_paths(ctx, pth, fl)
     for j in range(ctx.n(800, 60_000)):
         k_field_reuse(ctx, ctx.seed * 1_000_003 + ctx.shard[0] * 100_003 + j)
     # negative clause
